@@ -7,6 +7,7 @@ CONSTANTS
   ShapeIdx = {1, 2, 3, 4}
   UsageIdx = {1, 2, 3, 4, 5}
   CookieLens = {0, 1, 32, 255}
+  SuiteIds = {4865, 4866, 4867}
   Sample = 10
   Mutant = "none"
 INIT Init
